@@ -311,6 +311,41 @@ def verify(h, tier, keep=None):
            'canaries_failed_as_required': 0, 'checks_off': h.checks_off, 'bounds': h.bounds,
            'trusted': h.trusted, 'backend': h.solver or 'minisat (cbmc default SAT)', 'samples': [],
            'cmd': ''}
+    if h.kind == 'battery':
+        # Bounded NATIVE stand-in for a function CBMC cannot reach: the deterministic differential battery of the
+        # family's replay program, run against the current real code.  Labelled bounded, never counted as proof.
+        import replaylib
+        try:
+            w2, exe, cmdline = replaylib.build_native(h.replay[0], h.defines)
+            res['backend'] = 'native differential battery (gcc build of the real code vs. the spec), not a solver'
+            res['cmd'] = (cmdline or '') + ' && ./replay ' + h.replay[1] + ' --search'
+            res['obligations'] = 1
+            res['classes'] = {'assertion': 1}
+            if exe is None:
+                raise Undecided('native battery did not build: ' + str(cmdline)[-600:])
+            t0 = time.time()
+            try:
+                rc, out = replaylib.run_native(exe, h.replay[1], ['--search'], timeout=h.timeout)
+            finally:
+                shutil.rmtree(w2, ignore_errors=True)
+            res['solver_s'] = round(time.time() - t0, 2)
+            res['samples'] = [{'obligation': 'battery:' + h.replay[1], 'description': (h.bounds or '')[:200], 'at': h.replay[0]}]
+            if rc == 0:
+                res['status'] = 'BOUNDED-OK'
+                res['discharged'] = 1
+            elif rc == 1:
+                res['status'] = 'FAILED'
+                res['failed'] = {'obligation': 'battery.' + h.replay[1], 'class': 'bounded', 'description': (out or '')[-600:],
+                                 'file': h.replay[0], 'line': '', 'function': h.replay[1]}
+                res['witness'] = {}
+            else:
+                raise Undecided('native battery gave no verdict (rc=%s): %s' % (rc, (out or '')[-300:]))
+        except Undecided as e:
+            res['status'] = 'UNDECIDED'
+            res['reason'] = str(e)
+        res['wall_s'] = round(time.time() - t_start, 2)
+        shutil.rmtree(work, ignore_errors=True)
+        return res
     try:
         res['assumes_scan'] = scan_assumes(h)
         tu = compile_tu(h, tier)
